@@ -389,7 +389,15 @@ def _do_op(P: Proc, op: dict) -> dict:
             with P.vfs.open(t["file"], "r", encoding="utf-8") as f:
                 src = f.read()
         try:
-            c.compile(src, t["file"])
+            if op.get("handling"):
+                # the caller is handling an exception of its own while it compiles (an error handler that recompiles,
+                # a retry after a failed request): that exception is none of the compiler's business
+                try:
+                    raise KeyError("the caller's own exception")
+                except KeyError:
+                    c.compile(src, t["file"])
+            else:
+                c.compile(src, t["file"])
         except Exception as e:
             if slot is not None:
                 P._failed_slots.add(slot)
@@ -397,6 +405,7 @@ def _do_op(P: Proc, op: dict) -> dict:
                 dg = model.failure_digest(e)
                 # what a caller can read from the object after the failure is part of what the call "gives"
                 dg["readable_results"] = [a for a in ("routine_ops", "routine_infos", "named_coroutines", "source_map") if getattr(c, a, None) is not None]
+                dg["readable_results"] += [a for a in ("imports", "macros", "macro_resolution_order") if getattr(c, a, None)]
             return {"digest": dg}
         if slot is not None:
             P._failed_slots.discard(slot)
@@ -443,6 +452,8 @@ def _do_op(P: Proc, op: dict) -> dict:
             P.held.append(d)
         try:
             text, sm = d.convert()
+            if op.get("again"):
+                text, sm = d.convert()  # the same decompiler object asked again: the same answer
             with trace.observation():
                 dg = model.decompile_digest(text, sm)
             P.kept.append(("D", (text, sm), model.canon(dg)))
@@ -467,7 +478,10 @@ def _do_op(P: Proc, op: dict) -> dict:
         try:
             c.compile(pool["ssbs"][op["i"]])
         except Exception as e:
-            return {"digest": model.failure_digest(e)}
+            with trace.observation():
+                dg = model.failure_digest(e)
+                dg["readable_results"] = [a for a in ("routine_ops", "routine_infos", "named_coroutines", "source_map") if getattr(c, a, None) is not None]
+            return {"digest": dg}
         with trace.observation():
             d = model.routines_to_json(c.routine_infos, c.named_coroutines, c.routine_ops)
             d["source_map"] = json.loads(c.source_map.serialize())
@@ -563,7 +577,7 @@ def reference(pool: dict, op: dict, version: int = 0) -> dict:
     P = Proc(pool, 0, 0, version)
     P.alloc.mode = "real"
     counts = {}
-    out = do_op(P, {k: v for k, v in op.items() if k not in ("share", "hold")})
+    out = do_op(P, {k: v for k, v in op.items() if k not in ("share", "hold", "handling", "again")})
     return {"digest": out["digest"], "extra": out.get("extra", {})}
 
 
@@ -572,7 +586,7 @@ def reference_count(pool: dict, op: dict, kind: str) -> int:
     sut.quiet_logging()
     P = Proc(pool, 0, 0)
     cp = trace.CrashPoint(kind, 0, None)
-    cp.run(do_op, P, {k: v for k, v in op.items() if k not in ("share", "hold")})
+    cp.run(do_op, P, {k: v for k, v in op.items() if k not in ("share", "hold", "handling", "again")})
     return cp.count
 
 
@@ -606,8 +620,12 @@ def gen_history(pool: dict, rng: random.Random, knobs: dict) -> list:
         k = rng.choice(kinds)
         if k == "C":
             ops.append({"k": "C", "i": rng.randrange(nt), "slot": rng.choice([None, 0, 0, 1])})
+            if rng.random() < 0.12:
+                ops[-1]["handling"] = True
         elif k in ("D", "S", "J") and nd:
             ops.append({"k": k if family is None or k != "S" else "D", "j": pick_doc(), "share": rng.random() < 0.5, "hold": rng.random() < 0.15})
+            if ops[-1]["k"] in ("D", "S") and rng.random() < 0.1:
+                ops[-1]["again"] = True
         elif k == "SC" and ns:
             ops.append({"k": "SC", "i": rng.randrange(ns), "slot": rng.choice([None, 0, 0])})
         elif k == "G":
@@ -846,9 +864,9 @@ def run_item(item: dict) -> dict:
 def _brief(o: dict) -> str:
     k = o["k"]
     if k == "C":
-        return f"C(text{o['i']},slot={o.get('slot')})"
+        return f"C(text{o['i']},slot={o.get('slot')}{',handling' if o.get('handling') else ''})"
     if k in ("D", "S", "J"):
-        return f"{k}(doc{o['j']}{',share' if o.get('share') else ''}{',hold' if o.get('hold') else ''})"
+        return f"{k}(doc{o['j']}{',share' if o.get('share') else ''}{',hold' if o.get('hold') else ''}{',again' if o.get('again') else ''})"
     if k == "SC":
         return f"SC(ssbs{o['i']})"
     if k == "X":
@@ -913,6 +931,9 @@ def all_refs(pool: dict, ops: list) -> dict:
 
 
 def replay(payload: dict) -> dict:
+    if "import_order" in payload:
+        outs = import_order_outcomes(payload["import_order"]["source"])
+        return {"sig": payload["signature"] if len(set(outs.values())) > 1 else None}
     pool = payload["pool"]
     ops = payload["history"]
     refs = all_refs(pool, ops)
@@ -968,7 +989,68 @@ def _aslr_on():
         libc.personality(cur & ~0x0040000)
 
 
+IMPORT_ORDER_SCRIPT = r'''
+import sys, json, os
+mode = os.environ["SIMKIT_IMPORT_MODE"]
+if mode != "compiler-only":
+    import explorerscript.ssb_converting.ssb_decompiler as dec
+if mode == "after-a-decompilation":
+    from explorerscript.ssb_converting.ssb_data_types import SsbRoutineInfo, SsbRoutineType, SsbOperation, SsbOpCode, DungeonModeConstants
+    dec.ExplorerScriptSsbDecompiler([SsbRoutineInfo(SsbRoutineType.GENERIC, 0)], [[SsbOperation(0, SsbOpCode(-1, "a"), []), SsbOperation(1, SsbOpCode(-1, "End"), [])]],
+                                    [], "$PPL", DungeonModeConstants("C", "O", "R", "OR")).convert()
+from explorerscript.ssb_converting.ssb_compiler import ExplorerScriptSsbCompiler
+src = sys.stdin.read()
+c = ExplorerScriptSsbCompiler("$PPL")
+try:
+    c.compile(src, "/sim/deep.exps")
+    out = ["ok", [[[op.offset, op.op_code.name, len(op.params)] for op in r] for r in c.routine_ops], c.source_map.serialize()]
+except BaseException as e:
+    out = ["raised", type(e).__name__]
+print(json.dumps(out))
+'''
+
+
+def deep_texts() -> dict:
+    """Programs whose compilation recurses deeply (what the process has imported or done before must not decide whether
+    they compile)."""
+    def nest(open_, close, n, body="a();"):
+        return "def 0 {\n" + "".join(f"{open_(i)}\n" for i in range(n)) + body + "\n" + "".join(f"{close}\n" for _ in range(n)) + "end;\n}\n"
+
+    return {
+        "nested_ifs_130": nest(lambda i: f"if ($V == {i}) {{ op();", "}", 130),
+        "nested_ifs_debug_150": nest(lambda i: "if (debug) {", "}", 150),
+        "nested_loops_90": nest(lambda i: f"while ($W < {i}) {{ forever {{", "break_loop; } }", 90),
+        "nested_ifs_40": nest(lambda i: f"if ($V == {i}) {{ op();", "}", 40),
+    }
+
+
+def import_order_outcomes(src: str) -> dict:
+    from simkit.boot import repo_dir
+
+    outs = {}
+    for mode in ("compiler-only", "decompiler-imported-first", "after-a-decompilation"):
+        env = {k: v for k, v in os.environ.items() if k not in ("PYTHONSTARTUP",)}
+        env.update({"PYTHONHASHSEED": "0", "PYTHONPATH": repo_dir(), "SIMKIT_IMPORT_MODE": mode, "PYTHONDONTWRITEBYTECODE": "1"})
+        p = subprocess.run([sys.executable, "-W", "ignore", "-c", IMPORT_ORDER_SCRIPT], input=src, capture_output=True, text=True, env=env, timeout=300)
+        if p.returncode != 0 or not p.stdout.strip():
+            raise HarnessError(f"import-order interpreter failed ({mode}): {p.stderr[-300:]}")
+        outs[mode] = p.stdout.strip().splitlines()[-1]
+    return outs
+
+
+def import_order_item(item: dict) -> dict:
+    src = deep_texts()[item["text"]]
+    outs = import_order_outcomes(src)
+    res = {"replicas": len(outs), "violations": [], "outcomes": {m: json.loads(o)[0] + (":" + json.loads(o)[1] if json.loads(o)[0] == "raised" else "") for m, o in outs.items()}}
+    if len(set(outs.values())) > 1:
+        res["violations"].append({"sig": {"clause": "same-result-whatever-was-imported-before", "op": "C", "field": item["text"]},
+                                  "import_order": {"text": item["text"], "source": src, "outcomes": res["outcomes"]}})
+    return res
+
+
 def fresh_item(item: dict) -> dict:
+    if item.get("import_order"):
+        return import_order_item(item)
     pool = forkrun(make_pool, item["pool_seed"], timeout=300)
     op = dict(item["op"])
     if "project" in op:
@@ -1017,6 +1099,7 @@ def check(rep, tier: str, master: int, only_idx=None) -> None:
                           {"k": "S", "j": frng.randrange(3)}, {"k": "J", "j": frng.randrange(3)}])
         configs = [(hs, frng.random() < 0.5, frng.choice([0, 0, 3, 17])) for hs in ("1", str(frng.randrange(2 ** 31)), str(frng.randrange(2 ** 31)))]
         fresh.append({"idx": 10_000 + i, "fresh": True, "pool_seed": items[i % len(items)]["pool_seed"], "op": op, "configs": configs})
+    fresh += [{"idx": 20_000 + i, "fresh": True, "import_order": True, "text": name} for i, name in enumerate(sorted(deep_texts()))]
     work = items + fresh
     if only_idx is not None:
         work = [w for w in work if w["idx"] in only_idx]
@@ -1067,6 +1150,13 @@ def check(rep, tier: str, master: int, only_idx=None) -> None:
             rep.violation(v["sig"], {}, "")
             continue
         seen.add(key)
+        if "import_order" in v:
+            payload = {"engine": ENGINE, "import_order": v["import_order"]}
+            if replay({**payload, "signature": v["sig"]})["sig"] != v["sig"]:
+                rep.harness_error(f"violation did not replay: {v['sig']}")
+                continue
+            rep.violation(v["sig"], payload, f"{v['sig']}: {v['import_order']['outcomes']}")
+            continue
         pool = forkrun(make_pool, v["pool_seed"], timeout=300)
         ops = v["history"]
         refs = {}
